@@ -1160,8 +1160,8 @@ fn c17_one(rep: &mut Report, r: &RVal) {
 					Value::deserialize_in_place(&mut de, &mut p1).map_err(|e| e.to_string())
 				}));
 				let r2 = guard(std::panic::AssertUnwindSafe(|| Value::deserialize_in_place(v.clone(), &mut p2).map_err(|e| e.to_string())));
-				let fresh1 = serde_json::from_str::<Value>(&text).map_err(|e| e.to_string());
-				let fresh2 = json_syntax::from_value::<Value>(v.clone()).map_err(|e| e.to_string());
+				let fresh1 = guard(|| serde_json::from_str::<Value>(&text).map_err(|e| e.to_string())).unwrap_or_else(|p| Err(format!("panic: {}", p)));
+				let fresh2 = guard(|| json_syntax::from_value::<Value>(v.clone()).map_err(|e| e.to_string())).unwrap_or_else(|p| Err(format!("panic: {}", p)));
 				rep.count("in_place_deserializations", 2);
 				for (how, got, place_after, fresh) in [("serde_json text", r1, &p1, fresh1), ("another Value", r2, &p2, fresh2)] {
 					match (got, fresh) {
